@@ -40,9 +40,10 @@ NormSrvCl(o) ==
      vis |-> [kind |-> o.vis.kind, list |-> o.vis.list, added |-> ToSet(o.vis.added), removed |-> ToSet(o.vis.removed)],
      pendingMap |-> o.pendingMap]
 
+\* ord / rord: the order of the records on the wire, as observed (an input of the client's apply functions)
 NormUpd(m) == [tick |-> m.tick, maps |-> ToSet(m.maps), desp |-> m.desp,
-               rems |-> [e \in DOMAIN m.rems |-> ToSet(m.rems[e])], chg |-> m.chg]
-NormMut(m) == [upd |-> m.upd, tick |-> m.tick, cnt |-> m.cnt, idx |-> m.idx, ents |-> m.ents]
+               rems |-> [e \in DOMAIN m.rems |-> ToSet(m.rems[e])], chg |-> m.chg, rord |-> m.rorder, ord |-> m.order]
+NormMut(m) == [upd |-> m.upd, tick |-> m.tick, cnt |-> m.cnt, idx |-> m.idx, ents |-> m.ents, ord |-> m.order]
 MapSeq(s, F(_)) == [i \in 1..Len(s) |-> F(s[i])]
 
 NormNet(n) == [upd |-> MapSeq(n.upd, NormUpd), mut |-> MapSeq(n.mut, NormMut), ack |-> n.ack,
@@ -53,7 +54,7 @@ NormCli(o, lastNotDisc, preUsed, mt) ==
      ents |-> [e \in DOMAIN o.ents |-> [alive |-> o.ents[e].alive, marker |-> o.ents[e].marker,
                                          comps |-> o.ents[e].comps, hist |-> o.ents[e].hist, pre |-> o.ents[e].pre]],
      pre |-> o.pre, preUsed |-> preUsed, extra |-> o.extra, mt |-> mt, notif |-> o.notif,
-     buf |-> MapSeq(o.buf, LAMBDA b : [upd |-> b.upd, tick |-> b.tick, cnt |-> b.cnt, ents |-> b.ents, idx |-> b.idx]),
+     buf |-> MapSeq(o.buf, LAMBDA b : [upd |-> b.upd, tick |-> b.tick, cnt |-> b.cnt, ents |-> b.ents, idx |-> b.idx, ord |-> b.order]),
      lastNotDisc |-> lastNotDisc, panicked |-> o.panicked]
 
 \* fields the harness cannot observe are carried over from the prediction
@@ -80,11 +81,16 @@ CliFields == {"status", "updTick", "ents", "buf", "panicked", "pre", "extra", "n
 EvNetFields == {"sev", "rxSev", "cev", "srxCev"}
 SrvFields == {"tick", "frame", "running", "now", "world", "despawnBuf", "removalBuf"}
 
+\* the order of the records inside a message is not predicted (it is Bevy's archetype order)
+NoOrd(f, v) == IF f \in {"upd", "rxUpd"} THEN MapSeq(v, LAMBDA m : [m EXCEPT !.ord = <<>>, !.rord = <<>>])
+               ELSE IF f \in {"mut", "rxMut", "buf"} THEN MapSeq(v, LAMBDA m : [m EXCEPT !.ord = <<>>])
+               ELSE v
+
 Diffs(p, o) ==
     {<<"srv", f, "-">> : f \in {x \in SrvFields : p.srv[x] # o.srv[x]}}
     \cup UNION {{<<"srv.cl", f, c>> : f \in {x \in ClFields : p.srv.cl[c][x] # o.srv.cl[c][x]}} : c \in Clients}
-    \cup UNION {{<<"net", f, c>> : f \in {x \in NetFields : p.net[c][x] # o.net[c][x]}} : c \in Clients}
-    \cup UNION {{<<"cli", f, c>> : f \in {x \in CliFields : p.cli[c][x] # o.cli[c][x]}} : c \in Clients}
+    \cup UNION {{<<"net", f, c>> : f \in {x \in NetFields : NoOrd(x, p.net[c][x]) # NoOrd(x, o.net[c][x])}} : c \in Clients}
+    \cup UNION {{<<"cli", f, c>> : f \in {x \in CliFields : NoOrd(x, p.cli[c][x]) # NoOrd(x, o.cli[c][x])}} : c \in Clients}
     \cup UNION {{<<"ev.net", f, c>> : f \in {x \in EvNetFields : p.ev.net[c][x] # o.ev.net[c][x]}} : c \in Clients}
 
 FieldVal(s, d) == CASE d[1] = "srv" -> s.srv[d[2]]
@@ -127,6 +133,8 @@ Predict(cur, r) ==
          [] r.ev = "EmitS"      -> Plain(P!EmitSF(cur, [t |-> a.t, id |-> a.id, mode |-> a.mode, to |-> a.to, sess |-> 0, e |-> a.e]), TRUE)
          [] r.ev = "EmitC"      -> Plain(P!EmitCF(cur, a.c, [t |-> a.t, id |-> a.id, e |-> a.e]), TRUE)
          [] r.ev = "DeliverEvS" -> Plain(P!DeliverEvSF(cur, a.c, a.t, a.pos + 1), P!DeliverEvSEnabled(cur, a.c, a.t, a.pos + 1))
+         [] r.ev = "DropEvS"    -> Plain(P!DropEvSF(cur, a.c, a.t, a.pos + 1), P!DropEvSEnabled(cur, a.c, a.t, a.pos + 1))
+         [] r.ev = "DropEvC"    -> Plain(P!DropEvCF(cur, a.c, a.t, a.pos + 1), P!DropEvCEnabled(cur, a.c, a.t, a.pos + 1))
          [] r.ev = "DeliverEvC" -> Plain(P!DeliverEvCF(cur, a.c, a.t, a.pos + 1), P!DeliverEvCEnabled(cur, a.c, a.t, a.pos + 1))
          [] r.ev = "Prespawn"   -> Plain(P!PrespawnF(cur, a.c, a.p), P!PrespawnEnabled(cur, a.c, a.p))
          [] r.ev = "KillPre"    -> Plain(P!KillPreF(cur, a.c, a.p), P!KillPreEnabled(cur, a.c, a.p))
@@ -160,9 +168,9 @@ GhostStep(gg, r, pre, obs, ran) ==
         g1 == IF r.ev = "SrvFrame" THEN [gg EXCEPT !.sentAtRest = sentNow] ELSE gg
         g2 == IF r.ev = "SrvFrame" /\ ran THEN P!GhostSnap(P!GhostMaps(g1, pre, obs), obs) ELSE g1
         g3 == IF r.ev = "SetVis" THEN P!GhostSetVis(g2, r.args.c, r.args.e, r.args.v) ELSE g2
-        g4 == IF r.ev = "Connect" THEN [g3 EXCEPT !.lastSet[r.args.c] = <<>>, !.mapsSent[r.args.c] = {}] ELSE g3
+        g4 == IF r.ev = "Connect" THEN [g3 EXCEPT !.lastSet[r.args.c] = <<>>, !.mapsSent[r.args.c] = {}, !.onceSent[r.args.c] = {}] ELSE g3
         \* a restarted server counts its ticks from 0 again: the snapshots of the old run are void
-        g5 == IF r.ev = "Stop" THEN [g4 EXCEPT !.snap = <<>>, !.visAt = <<>>] ELSE g4
+        g5 == IF r.ev = "Stop" THEN [g4 EXCEPT !.snap = <<>>, !.visAt = <<>>, !.onceSent = [c \in Clients |-> {}]] ELSE g4
     IN g5
 
 ----------------------------------------------------------------------------
